@@ -62,7 +62,7 @@ let rec print buf = function
             List.iteri (fun i x -> if i > 0 then Buffer.add_char buf ' '; print buf x) l;
             Buffer.add_char buf ')'
 
-let parse (s : string) : sx =
+let parse (s : Stdlib.String.t) : sx =
   let n = String.length s in
   let pos = ref 0 in
   let rec skip () = if !pos < n && (s.[!pos] = ' ' || s.[!pos] = '\t') then (incr pos; skip ()) in
